@@ -406,6 +406,9 @@ func runC06(c *Ctx) {
 					}
 					continue
 				}
+				if ph, isPhi := in.(*ssa.Phi); isPhi {
+					delete(w.memo, ph) // a helper entered again: what an earlier occurrence meant does not carry over
+				}
 				if ph, isPhi := in.(*ssa.Phi); isPhi && haveWrap && isIntegerType(ph.Type()) {
 					// "if i >= len(data) { i = 0 }" on a local copy of the head: the wrapped value is i - len(data)
 					if e := pt.phiAt(ph, idx); e != nil {
@@ -1035,7 +1038,8 @@ func (r *bufRoles) ringIndexRule(o *Obligation, f *ssa.Function) {
 			continue
 		}
 		w := newSymWalker(pt)
-		var est []linForm
+		var est, wrapped, copied []linForm
+		lenF := linSym("len(" + recv + "." + r.data + ")")
 		ci := 0
 		var stack []*ssa.Call
 		isRing := func(v ssa.Value, idx int) bool {
@@ -1055,6 +1059,21 @@ func (r *bufRoles) ringIndexRule(o *Obligation, f *ssa.Function) {
 				for _, e := range est {
 					if e.eq(I) {
 						good = true
+					}
+				}
+				// wrapped by subtraction: the path found len(data) <= x and the index is x - len(data) (an advance
+				// never exceeds the ring: what is skipped or stored was stored in it)
+				for _, e := range wrapped {
+					if e.add(lenF, -1).eq(I) {
+						good = true
+					}
+				}
+				// a slice may start at len(data): the number of bytes a copy put into the ring is at most that
+				if what == "a slice start" {
+					for _, e := range copied {
+						if e.eq(I) {
+							good = true
+						}
 					}
 				}
 			}
@@ -1085,7 +1104,21 @@ func (r *bufRoles) ringIndexRule(o *Obligation, f *ssa.Function) {
 						}
 					}
 				}
+				if cm, ok := normCmp(ft.Cond, ft.Val); ok && cm.Op == token.LEQ {
+					if isLenOf(pt.valueAt(cm.X, idx), func(v ssa.Value) bool { return isRing(v, idx) }) {
+						if x := w.lin(cm.Y); x.OK {
+							wrapped = append(wrapped, x)
+						}
+					}
+				}
 				continue
+			}
+			if call, isC := in.(*ssa.Call); isC && isCall(call, "builtin.copy") {
+				if d := pt.valueAt(call.Call.Args[0], idx); isRing(d, idx) || derivesFrom(d, func(v ssa.Value) bool { return r.isLoad(v, r.data) }, false) {
+					if f := w.lin(call); f.OK {
+						copied = append(copied, f)
+					}
+				}
 			}
 			switch x := in.(type) {
 			case *ssa.IndexAddr:
@@ -1466,14 +1499,22 @@ func c06Grow(c *Ctx, r *bufRoles) {
 						contiguous = true
 					}
 				}
+				if a, pol, ok := atomOfP(cnd.Cond, cnd.Val, sym, pt.phi); ok && !pol && !a.Eq {
+					// not (tail < head)  <=>  not (head - tail > 0)
+					if a.Form.eq(hF.add(tF, -1)) {
+						contiguous = true
+					}
+				}
 			}
+			lenF := linSym("len(" + recvN + "." + r.data + ")")
+			toEnd := func(p *linForm) bool { return p == nil || p.eq(lenF) }
 			okSegs := false
 			switch {
 			case len(segs) == 1 && contiguous:
 				okSegs = segs[0].fromRing && isF(segs[0].lo, hF) && isF(segs[0].hi, tF) && (segs[0].dstLo == nil || segs[0].dstLo.eq(linConst(0)))
 			case len(segs) == 2 && !contiguous:
 				first := linSym(fmt.Sprintf("copy@%d", segs[0].call.Pos()))
-				okSegs = segs[0].fromRing && segs[1].fromRing && isF(segs[0].lo, hF) && segs[0].hi == nil &&
+				okSegs = segs[0].fromRing && segs[1].fromRing && isF(segs[0].lo, hF) && toEnd(segs[0].hi) &&
 					(segs[1].lo == nil || segs[1].lo.eq(linConst(0))) && isF(segs[1].hi, tF) &&
 					(segs[0].dstLo == nil || segs[0].dstLo.eq(linConst(0))) && isF(segs[1].dstLo, first)
 			}
@@ -1776,7 +1817,7 @@ func runC07(c *Ctx) {
 
 	// R4 accessors
 	o = c.Obl("R4", r.T, "Count returns count and Size returns the occupancy helper's result, both under the mutex; SetLimitCount/SetLimitSize store their argument under the mutex", 4)
-	for _, v := range returnedValues(r.Count, 0) {
+	for _, v := range returnedLeavesU(r.Count, 0) {
 		o.Site(v.Pos(), "Count returns %s", accessPath(v))
 		if !r.isLoad(v, r.count) {
 			o.Fail(v.Pos(), "Count does not return the packet count")
@@ -1784,7 +1825,7 @@ func runC07(c *Ctx) {
 			o.Fail(v.Pos(), "Count reads count without the mutex")
 		}
 	}
-	for _, v := range returnedValues(r.Size, 0) {
+	for _, v := range returnedLeavesU(r.Size, 0) {
 		call, ok := v.(*ssa.Call)
 		o.Site(v.Pos(), "Size returns %s", v.String())
 		if !ok || call.Call.StaticCallee() != r.sizeFn {
@@ -1809,6 +1850,40 @@ func runC07(c *Ctx) {
 				o.Fail(in.Pos(), "%s stores the limit without the mutex", fname(fs.f))
 			}
 		}
+		// a setter helper shared by both limits, storing through the field's address: each call on its own
+		instrsOf(fs.f, func(ci ssa.Instruction) {
+			call, ok := ci.(*ssa.Call)
+			if !ok {
+				return
+			}
+			h := helperCallee(call)
+			if h == nil {
+				return
+			}
+			withSite(call, func() {
+				instrsOfU(h, func(in ssa.Instruction) {
+					st, ok := in.(*ssa.Store)
+					if !ok {
+						return
+					}
+					if _, direct := asFieldAddr(st.Addr); direct {
+						return
+					}
+					fr, ok := asFieldAddr(origin(st.Addr))
+					if !ok || fr.SName != r.T || fr.Field != fs.field {
+						return
+					}
+					n++
+					o.Site(in.Pos(), "%s stores %s through %s", fname(fs.f), st.Val.Name(), fname(h))
+					if !sameOrigin(st.Val, ssa.Value(fs.f.Params[1])) {
+						o.Fail(in.Pos(), "%s does not store its argument", fname(fs.f))
+					}
+					if !la.holdsOwner(in, r.T, true) {
+						o.Fail(in.Pos(), "%s stores the limit without the mutex", fname(fs.f))
+					}
+				})
+			})
+		})
 		if n != 1 {
 			o.Fail(fs.f.Pos(), "%s: expected exactly one store of the limit, found %d", fname(fs.f), n)
 		}
@@ -2046,4 +2121,39 @@ func emptyHeadTail(r *bufRoles, ft fact) bool {
 		return false
 	}
 	return (r.isLoad(cm.X, r.head) && r.isLoad(cm.Y, r.tail)) || (r.isLoad(cm.X, r.tail) && r.isLoad(cm.Y, r.head))
+}
+
+// returnedLeavesU: the values result i of f can take, looking through private helpers with any number of results.
+func returnedLeavesU(f *ssa.Function, i int) []ssa.Value {
+	var out []ssa.Value
+	seen := map[ssa.Value]bool{}
+	var expand func(f *ssa.Function, i int, d int)
+	expand = func(f *ssa.Function, i int, d int) {
+		for _, v := range returnedValues(f, i) {
+			if seen[v] {
+				continue
+			}
+			seen[v] = true
+			if d < 4 {
+				if ex, ok := v.(*ssa.Extract); ok {
+					if call, ok := ex.Tuple.(*ssa.Call); ok {
+						if h := helperCallee(call); h != nil {
+							expand(h, ex.Index, d+1)
+							continue
+						}
+					}
+				}
+				if call, ok := v.(*ssa.Call); ok {
+					if h := helperCallee(call); h != nil && h.Signature.Results().Len() == 1 && h != f {
+						// keep the call itself too: some rules name the helper
+						out = append(out, v)
+						continue
+					}
+				}
+			}
+			out = append(out, v)
+		}
+	}
+	expand(f, i, 0)
+	return out
 }
